@@ -163,13 +163,15 @@ def allSome {α : Type} : List (Option α) → Option (List α)
   | none :: _ => none
   | some a :: r => (allSome r).map (a :: ·)
 
-/-- the record-count line: `list(map(int, line.split()))` matched against `[na] | [na, nb] | [na, nb, ns, *rest]` -/
+/-- the record-count line: `list(map(int, line.split()))` matched against `[na] | [na, nb] | [na, nb, ns, *rest]`;
+a negative count is a syntax error (REPAIRED behaviour, defect D40: the unrepaired reader accepts a header
+that declares a negative number of bonds and returns a molecule with 0 bonds) -/
 def parseCounts (s : Str) : Except Err (Int × Option Int) :=
   match allSome ((pySplit s).map parseInt) with
   | none => .error .value
   | some [] => .error .syntax
-  | some [na] => .ok (na, none)
-  | some (na :: nb :: _) => .ok (na, some nb)
+  | some [na] => if na < 0 then .error .syntax else .ok (na, none)
+  | some (na :: nb :: _) => if na < 0 ∨ nb < 0 then .error .syntax else .ok (na, some nb)
 
 /-- `MOL2Atom(*line.split(maxsplit=10))`: 5 to 11 positional fields -/
 def atomRec (line : Str) : Except Err Rec :=
